@@ -3556,6 +3556,11 @@ func (ts *TokenStore) authRenew(ctx context.Context, req *logical.Request, d *fr
 	}
 
 	req.Auth.Period = role.TokenPeriod
+	// A period given at creation time is stored on the token and must keep
+	// applying; as at creation, the lesser value is used.
+	if te.Period > 0 && (req.Auth.Period == 0 || te.Period < req.Auth.Period) {
+		req.Auth.Period = te.Period
+	}
 	req.Auth.ExplicitMaxTTL = role.TokenExplicitMaxTTL
 	// An explicit max TTL given at creation time is stored on the token and
 	// must keep applying; as at creation, the lesser value is used.
